@@ -10,7 +10,7 @@ META = dict(
 RULE = ("c30 forge: real RelayProof sets (sizes 5..8, 15..17, 31..33, 63..65, random to max), pre/post-upgrade heights; for 3 indices of each valid tree the committed proof and "
         "every single-field mutation: other/fresh leaf, index (+-1, +-2, +-2^(L-1), xor 1, negated, sign bit, random, +m*2^L aliases), target lower/upper/hash, per level sibling hash "
         "(bit flip, truncated, nil, zero-extended, other node, buffer-overflow extension), sibling lower/upper +-1, zero-width sibling, swapped siblings, fewer/more siblings and levels, "
-        "odd-leaf midpoint pair, root hash/upper/lower, another index's proof; one third of the trees contain 1..n/2 replayed (duplicated) relays and are validated at up to 40 indices; "
+        "odd-leaf and even-leaf midpoint pairs, root hash/upper/lower, another index's proof; one third of the trees contain 1..n/2 replayed (duplicated) relays and are validated at up to 40 indices; "
         "non-trivial = Validate returned (no panic)")
 
 
